@@ -62,7 +62,10 @@ MANIFEST_ENTRY = {
     "text": "Proved in Lean, for every state / history, both txaio scheduling modes (Twisted: callbacks at once; asyncio: "
             "queued continuations, one loop iteration = `tick`) and every behaviour of the user hooks (run the default body or "
             "not, make API calls, return or raise): pre_session_gate (before establishment anything but WELCOME/ABORT/"
-            "CHALLENGE, afterwards every handshake message, raises ProtocolError and changes nothing); "
+            "CHALLENGE, afterwards every handshake message, and once the session or the join attempt of the connection is "
+            "over EVERY message, raises ProtocolError and changes nothing); session_end_is_recorded and "
+            "open_and_join_clear_the_record (router ABORT, the GOODBYE that ends a session and a failing onChallenge set the "
+            "record before onLeave runs; only onOpen and join() clear it); "
             "api_fails_fast_after_end (without a transport call/publish/subscribe/register raise TransportLost at once and "
             "record nothing), closed_ends_everything, transport_written_only_by_onOpen_and_onClose and "
             "api_fails_fast_after_end_history (onClose drops the transport whatever the hooks do; NO other event of any "
@@ -76,21 +79,33 @@ MANIFEST_ENTRY = {
             "touches no completed future) and onDisconnect_is_backstop. The property as a whole is an executable trace "
             "Spec (Model/SessTrace.lean: callbacks and observers in order and at most once per connection, onLeave exactly "
             "at session ends / aborts, gate, GOODBYE at most once and answered iff not initiator, nothing pending after the "
-            "end, API after the end); CallbacksOrderedOnce (the model's trace of EVERY history is clean) is stated in full "
-            "and refuted by decide on four histories: F11 (two ABORTs), WELCOME after the GOODBYE that ended the session, "
-            "and on asyncio GOODBYE one loop iteration after WELCOME (onLeave before onJoin) and GOODBYE in the iteration "
-            "of WELCOME (rejected as protocol violation); it is NOT proved as a `_partial` theorem over all well-formed "
-            "histories (only decide-checked instances with raising hooks, pending requests, local leave and transport "
-            "loss): for the ordering / at-most-once clauses the assurance is the tie. Tie: 1160 (quick) conversations of "
+            "end, API after the end). callbacks_ordered_once_twisted (since the repair of the F11 family): for EVERY "
+            "history on Twisted in which the transport calls onOpen / onClose / onMessage the way transports do and user "
+            "code never calls join() itself — whatever the hooks do, whatever the router sends (any number of ABORT / WELCOME "
+            "/ CHALLENGE / GOODBYE at any position), wherever the transport is lost — the trace Spec finds in the trace of "
+            "the model no callback or observer out of order or a second time on one connection, no onLeave without a session "
+            "end / aborted join and none missing, no illegal message handled as anything but a protocol violation (invariant "
+            "over four phases between the model and the six fields of the Spec reader these clauses read; "
+            "stepCheck_order ties the real Spec to them). The statement for both schedulings (CallbacksOrderedOnce) stays "
+            "refuted by decide on two asyncio histories: GOODBYE one loop iteration after WELCOME (onLeave before onJoin) and "
+            "GOODBYE in the iteration of WELCOME (rejected as protocol violation); the histories that refuted it on Twisted "
+            "(two ABORTs, WELCOME after the GOODBYE that ended the session, ...) are decide-checked clean; that re-joining "
+            "on the same transport (join() from onLeave) is outside the per-connection clause is decide-checked too. "
+            "Tie: 1160 (quick) conversations of "
             "the session grammar x ONE illegal message / leave() / disconnect() / transport loss at each position x hooks x "
             "loop schedules feasible on asyncio, Twisted and asyncio, observation-exact against the model, trace Spec "
             "judged on the implementation's trace; the same scripts over the real WebSocket and RawSocket WAMP transports "
             "of both frameworks (json / msgpack / cbor) against an independent in-memory peer, token-exact.",
-    "note": "Trusted: Lean kernel; the hand-written model and trace Spec; txaio/loop semantics as modelled. Known findings "
-            "(known_findings.d/C06.jsonl): the F11 family (9 input classes, one root cause: the pre-session branch keeps no "
-            "record that the join attempt / session of this connection is over) and, found by this check on asyncio and "
-            "confirmed on the real asyncio RawSocket transport, messages processed in the loop iteration of WELCOME (4 "
-            "classes) and GOODBYE one iteration after WELCOME (onLeave before onJoin). Spec decisions: a failing onChallenge "
+    "note": "Trusted: Lean kernel; the hand-written model and trace Spec; txaio/loop semantics as modelled. Repaired in "
+            "/repo (fixed entries in known_findings.d/C06.jsonl, reported again as violations if they return): the F11 "
+            "family (9 input classes, one root cause: the pre-session branch kept no record that the join attempt / session "
+            "of the connection was over; the late WELCOME / ABORT / CHALLENGE is now a ProtocolError and the Spec demands "
+            "that). Open findings, asyncio only, found by this check and confirmed on the real asyncio RawSocket transport: "
+            "messages processed in the loop iteration of WELCOME (4 classes) and GOODBYE one iteration after WELCOME (onLeave "
+            "before onJoin); left open because the WELCOME continuation is deferred by txaio itself (callbacks on a done "
+            "Future run at the next iteration; onWelcome may be a coroutine), so assigning the session id at once needs "
+            "either a synchronous verdict of onWelcome or queuing of the messages that arrive meanwhile. Spec decisions: a "
+            "session / join attempt is over once onLeave has run and no HELLO was sent since; a failing onChallenge "
             "(own ABORT) counts as an aborted join (onLeave expected); an override of onDisconnect that never calls the "
             "default body is outside the Spec. After close() / a protocol violation the real transports deliver nothing "
             "more, so part B ends the conversation there (except messages of the same read).",
@@ -462,7 +477,7 @@ def gen_real(ctx):
 
 
 CORPUS = [
-    # F11: two ABORT before WELCOME
+    # F11 (repaired, kept as regression input): two ABORT before WELCOME
     (["open", "pump", "m.abort", "pump", "m.abort", "pump", "closed", "pump"], True),
     # the conversation in one piece: challenge, welcome, requests of all kinds, peer GOODBYE, close, API afterwards
     (["open", "pump", "m.challenge;rv1", "pump", "m.welcome,7,-", "pump", "sub,1,1,n,ok", "m.subscribed,1,50", "reg,2,2,n,ok",
